@@ -6,6 +6,7 @@ from fractions import Fraction
 KINDS5 = ["TAP", "HOLD_HEAD", "ROLL_HEAD", "TAIL", "MINE"]
 KINDS7 = KINDS5 + ["LIFT", "FAKE"]
 KINDS6 = KINDS5 + ["LIFT"]
+KINDS3 = ["TAP", "HOLD_HEAD", "TAIL"]
 HEADS = ("HOLD_HEAD", "ROLL_HEAD")
 INCLUDE_SETS = {
     "all": None,
